@@ -60,6 +60,7 @@ type Contract struct {
 	Params   []string // explicit parameter names (trusted specs for functions without source names)
 	Used     bool
 	Holds    []HoldsClause // holds <monitor> <owner expr>: the caller holds the lock for the whole call
+	HeapFacts string // "on"/"off": force or suppress the quantified typing facts of fresh heap versions (default: by need)
 	ConstCaptures []string // captured variables assumed not to change during the call (listed as trusted)
 	Shell    bool          // an empty contract made up for a critical-section unit: callee preconditions are assumed, not proved
 }
@@ -152,7 +153,7 @@ var clauseKeywords = map[string]bool{
 	"ghost": true, "loop": true, "nopanic": true, "trusted": true, "panics": true, "track": true, "global-invariant": true,
 	"monitor": true, "invariant": true, "transition": true, "lemma": true, "axiom": true, "inline": true, "assert": true,
 	"props": true, "params": true, "protects": true, "snapshot": true, "abstract": true, "callee": true, "ghostvar": true, "on": true, "state": true, "closeonly": true, "assume": true, "freshcounter": true,
-	"trust-section": true, "unpublished": true, "holds": true, "constant": true,
+	"trust-section": true, "unpublished": true, "holds": true, "constant": true, "heapfacts": true,
 }
 
 type rawClause struct {
@@ -527,6 +528,8 @@ func (db *SpecDB) LoadSpecFile(path, pkgPath string) error {
 				}
 			case "inline":
 				cur.Inline = true
+			case "heapfacts":
+				cur.HeapFacts = strings.TrimSpace(rc.rest)
 			case "constant":
 				for _, p := range strings.Split(rc.rest, ",") {
 					cur.ConstCaptures = append(cur.ConstCaptures, strings.TrimSpace(p))
